@@ -24,6 +24,8 @@ PROPS = {
     "C10": "harness.corr_layers",
     "C11": "harness.corr_shuffle",
     "C20": "harness.corr_digraph",
+    "C01": "harness.corr_c01",
+    "C05": "harness.corr_c05",
     "C07": "harness.corr_channel",
     "C09": "harness.corr_suites",
 }
